@@ -109,7 +109,7 @@ def redactValue (m : Mapping) (orig : Bytes) : Mapping × Nat :=
 
 inductive AOp
   | readI (k : Bytes) | lockI (k : Bytes) | readV (k : Bytes) | lockV (k : Bytes)
-  deriving Repr
+  deriving Repr, DecidableEq
 
 /-- One atomic step; the result is the token the step hands back to its goroutine, if any
 (`readI`/`readV` on a miss hand back nothing: the goroutine goes on to `lockI`/`lockV`).
